@@ -38,7 +38,16 @@ Example C18_example :
   = [RBool true; RBool false; RBool true; Handshake; RBool true; Closed; RBool true].
 Proof. vm_compute. reflexivity. Qed.
 
+(* the regression the generated flags rule out: a duplicate registration that overwrites the first binding *)
+Theorem C18_refuted_if_a_duplicate_overwrites_the_first_context :
+  exists f, dup_ctx_refused f = false /\
+    let s1 := fst (serve_f f srv0 (mkSession (RCtxCreate 1) PComplete)) in
+    let '(s2, r) := serve_f f s1 (mkSession (RCtxCreate 1) PComplete) in
+    r = RBool true /\ ctx_get (contexts s2) 1 <> ctx_get (contexts s1) 1.
+Proof. exists (mkSF true true true true false true true). split; [reflexivity|]. vm_compute. split; [reflexivity|discriminate]. Qed.
+
 Print Assumptions C18_create.
 Print Assumptions C18_delete.
 Print Assumptions C18_unknown_context_never_harms.
 Print Assumptions C18_server_survives_every_history.
+Print Assumptions C18_refuted_if_a_duplicate_overwrites_the_first_context.
